@@ -6,6 +6,7 @@
 (*    module set; Emit prints it when it is complete.                       *)
 EXTENDS Notation, TLC, Json
 CONSTANT MinNodes   \* simulation: a module set is only finished once it has this many nodes
+CONSTANT MaxFaults  \* simulation: number of injected faults (C10); 0 for the other properties
 
 OpenContainers == {i \in 1..N : nodes[i].k \in Containers /\ NumChildren(i) < MaxComps}
 OpenLists == {i \in 1..N : nodes[i].k \in Lists /\ NumChildren(i) = 0}
@@ -50,6 +51,11 @@ SimElem == /\ OpenLists # {}
                 \E r \in {IF k = "REF" THEN RefTargetFor(p, b) ELSE 0}, c \in {Pick(CodesOf(k))} :
                    LET q == k = "REF" /\ r # 0 /\ (IF r # 0 THEN nodes[r].m # nodes[p].m ELSE FALSE) /\ qb
                    IN AddElem(p, k, c, TagAllFor(nodes[p].m, k, b), r, q)
+NumFaults == Cardinality({i \in Defs : nodes[i].fault # "none"})
+SimFault == /\ NumFaults < MaxFaults /\ Defs # {}
+            /\ \E i \in {Pick(Defs)}, f \in {Pick(FaultKinds)} :
+                 \E t \in {IF f = "DUPNAME" /\ \E x \in Defs : nodes[x].m # nodes[i].m THEN Pick({x \in Defs : nodes[x].m # nodes[i].m}) ELSE 0} :
+                    AddFault(i, f, t)
 SimModule == \E td \in {Pick(TagDefaults)}, imp \in {Pick(BOOLEAN)} : AddModule(td, imp)
 NextSim == \/ SimModule
            \/ StartGrowing
@@ -58,7 +64,8 @@ NextSim == \/ SimModule
            \/ (phase = "grow" /\ (SimChild \/ SimChild \/ SimChild))     \* weight: grow mostly by components
            \/ (phase = "grow" /\ SimMarker)
            \/ (phase = "grow" /\ (SimElem \/ SimElem))
-           \/ (N >= MinNodes /\ Finish)
+           \/ (phase = "grow" /\ N >= MinNodes /\ SimFault)
+           \/ (N >= MinNodes /\ NumFaults >= (IF MaxFaults > 0 THEN 1 ELSE 0) /\ Finish)
 SpecSim == Init /\ [][NextSim]_vars
 
 Emit == Done => PrintT(<<"CASE", ToJson([mods |-> mods, nodes |-> nodes])>>)
